@@ -128,6 +128,8 @@ def read_sfs(fs):
 def gen_fcfg(rng):
     """agreement grammar: each non-terminal occurrence carries n = constant | ?variable | (feature-free)"""
     vs = ["S", "A", "B"][:rng.randint(2, 3)]
+    if rng.random() < 0.15:
+        vs = vs[:-1] + [rng.choice(["Gamma", "Gamma'", "BEGIN"])]    # names the parser uses internally
     ts = ["a", "b", "c"][:rng.randint(1, 3)]
     featured = rng.random() < 0.6
     prods = []
